@@ -52,8 +52,9 @@ def run_case(case, ctx):
     b = rng.normal(size=m)
     x = rng.uniform(-2, 2, size=n)
     x = np.where(np.abs(x) < 0.05, 0.5, x)
-    if case['family'] == 'affine' and method == 'complex' and case['bounds'] == 'none' and case['seed'] % 3 == 0:
-        # magnitude classes (affine maps with the complex method: exact to rounding whatever the unit of x): some coordinates tiny, some huge, one exactly 0
+    if case['family'] == 'affine' and method == 'complex' and case['bounds'] == 'none' and case['step'] is None and case['seed'] % 2 == 0:
+        # magnitude classes (affine maps with the complex method and its default step: exact to rounding whatever the unit of x;
+        # a user-given relative step times a tiny |x| is a subnormal step, which is the user's choice): some coordinates tiny, some huge, one exactly 0
         ctx.count('extreme_magnitude_x_cases')
         mag = 10.0 ** np.where(rng.random(n) < 0.5, rng.uniform(-307.6, -285, size=n), rng.uniform(20, 120, size=n))
         x = np.sign(x) * mag
